@@ -444,7 +444,15 @@ def rplain_request_decoder(ctx):
     c01.r8_classifiers_are_plain(ctx)
 
 
-LIB_RULES = [rraw_params_text_is_not_reparsed, rjudge_only_the_decoders_say_invalid_params, rplain_request_decoder, rrej_rejections_are_driven, r1_only_invalid_params, r2_poison_on_error, r3_exhaustion_table, r4_absent_params, rown_into_owned, rnext_reads_T, rws_separator_sees_no_whitespace, rone_is_one_array_parse]
+def rbody_http_body_reaches_the_decoders_whole(ctx):
+    """the params text the decoders see is the text that was sent: the HTTP body reader appends every frame whole and
+    decides nothing on a single frame's bytes (a reader that trims each chunk removes whitespace *inside* a string value
+    when a chunk boundary falls there - a silently different value) (= C19.R2)"""
+    from . import c19
+    c19.r2_chunk_independence(ctx)
+
+
+LIB_RULES = [rbody_http_body_reaches_the_decoders_whole, rraw_params_text_is_not_reparsed, rjudge_only_the_decoders_say_invalid_params, rplain_request_decoder, rrej_rejections_are_driven, r1_only_invalid_params, r2_poison_on_error, r3_exhaustion_table, r4_absent_params, rown_into_owned, rnext_reads_T, rws_separator_sees_no_whitespace, rone_is_one_array_parse]
 CONFIGS_QUICK = ["libs-all", "corpus"]
 CONFIGS_THOROUGH = ["libs-all", "facade-full", "corpus"]
 
